@@ -4,7 +4,7 @@ plus trace validation of real runs against Resolve.tla / Outcomes.tla."""
 import hashlib
 import json
 import random
-from .. import common, corpus, genprog, rtrace, tv
+from .. import common, corpus, genasm, genprog, rtrace, tv
 
 BUDGETS_C09 = [1, 2, 3, 4, 5, 10, 11, 30]
 SWITCHES = [(True, True), (False, True), (True, False), (False, False)]
@@ -25,11 +25,17 @@ def ok_of(r):
     return bool(not r.get("crash") and not r.get("panic") and not r.get("error") and r.get("has_output"))
 
 
-def program_sources(seed, ngen, with_corpus=True, corpus_limit=None):
+def program_sources(seed, ngen, with_corpus=True, corpus_limit=None, ncasc=None):
     """-> list of (name, base job without opts)."""
     out = []
     for i, p in enumerate(genprog.programs(seed, ngen)):
         out.append(("gen%d" % i, {"mode": "asm", "files": {"main.asm": p}, "roots": ["main.asm"]}))
+    # cascading-size programs over generated instruction sets (assert-selected, typed-width and
+    # pc-relative forms; symbols named like rule parameters): the programs whose passes differ
+    rng = random.Random(seed + 7)
+    for i in range(ngen if ncasc is None else ncasc):
+        text = genasm.render_program(genasm.gen_cascade_program(rng))
+        out.append(("casc%d" % i, {"mode": "asm", "files": {"main.asm": text}, "roots": ["main.asm"]}))
     if with_corpus:
         cj = [(n, j) for n, j in corpus.corpus_jobs() if j["mode"] == "asm"]
         if corpus_limit is not None:
@@ -147,7 +153,7 @@ def run_c02(ck):
     resolver_traces(ck, names, jobs, results, sample_every=200)
     # semantic level: the claimed final state is certified against the rules (Asm.tla Certificate)
     from . import asm as asmprops
-    asmprops.certificates(ck, ck.seed + 4000, 150 if quick else 2500,
+    asmprops.certificates(ck, ck.seed + 4000, 300 if quick else 3000,
                           [1, 2, 3, 4, 6, 10, 30] if quick else list(range(1, 31)),
                           [(True, True), (False, False)] if quick else SWITCHES)
     ck.assumptions += [
@@ -194,7 +200,7 @@ KNOWN_INPUTS_C08 = [
 def run_c08(ck):
     quick = ck.tier == "quick"
     run_mc(ck, "MC_Resolve_quick.cfg" if quick else "MC_Resolve_thorough.cfg", workers=8 if quick else 14)
-    progs = KNOWN_INPUTS_C08 + program_sources(ck.seed + 2000, 100 if quick else 3000, corpus_limit=None)
+    progs = KNOWN_INPUTS_C08 + program_sources(ck.seed + 2000, 100 if quick else 3000, corpus_limit=None, ncasc=400 if quick else 4000)
     budgets = [1, 2, 3, 10] if quick else [1, 2, 3, 4, 5, 10, 11, 30]
     jobs, names = [], []
     for name, job in progs:
